@@ -9,7 +9,7 @@ import itertools
 import numpy as np
 from . import common
 
-THEOREM_FILES = ['NumqiProps/C14.lean']
+THEOREM_FILES = ['NumqiProps/C14.lean', 'NumqiProps/C14Helpers.lean']
 LEVEL = 'proof'
 RULE = ('every constructible table of order <= 120 (S2..S5, A2..A5, D3..D12, C2..C12, (Z/n)^* n<=24, V4, Q8) is compared entry for entry '
         'with the model; partition counts and the full recurrence table for all N<=60 (full table N<=40 in quick), Young-diagram arrays N<=12, '
@@ -28,7 +28,7 @@ def translate(ctx):
     # nothing is generated for C14; the hook only selects the theorem modules of the tier
     # (the N = 9, 10 tableau tables are several minutes of kernel evaluation when first built)
     global THEOREM_FILES
-    THEOREM_FILES = ['NumqiProps/C14.lean'] + ([] if ctx.quick() else ['NumqiProps/C14Thorough.lean'])
+    THEOREM_FILES = ['NumqiProps/C14.lean', 'NumqiProps/C14Helpers.lean'] + ([] if ctx.quick() else ['NumqiProps/C14Thorough.lean'])
     ctx.extra['theorem_files'] = list(THEOREM_FILES)
 
 
@@ -166,6 +166,30 @@ def impl_op(op):
                 return 'not-permutation-matrices'
             return rows_str(L.argmax(axis=1))          # [g, c] -> the row holding the 1 of column c
         return guarded(f)
+    if k == 'leftregfull':
+        def f():
+            T = build_table(t[2], int(t[3]))
+            L = np.asarray(G.cayley_table_to_left_regular_form(T))
+            N = len(T)
+            if L.shape != (N, N, N) or not np.all((L == 0) | (L == 1)):
+                return f'shape {L.shape} / entries outside 0,1'
+            return '|'.join(';'.join(''.join(str(int(x)) for x in row) for row in Lg) for Lg in L)
+        return guarded(f)
+    if k == 'totient':
+        return guarded(lambda: str(int(G.hf_Euler_totient(int(t[2])))))
+    if k == 'dummypart':
+        def f():
+            import numqi.group._internal as GI
+            n = int(t[2]); bits = t[3]
+            calls = []
+            def hf0(x, y):
+                calls.append((x, y))
+                return bits[x * (n + 1) + y] == '1'
+            out = GI._dummy_partition(n, hf0)
+            if any((not isinstance(sl, slice)) or sl.step is not None for sl in out) or any(not (0 <= x < y < n) for x, y in calls):
+                return f'not plain slices / predicate called outside 0 <= x < y < length: {calls[:4]}'
+            return ';'.join(f'{sl.start}:{sl.stop}' for sl in out)
+        return guarded(f)
     if k == 'numirrep':
         return guarded(lambda: str(int(G.get_sym_group_num_irrep(int(t[2])))))
     if k == 'numirrepfull':
@@ -239,6 +263,19 @@ def gen_ops(ctx):
             ops.append(f'C14 leftreg {kind} {n}')
         if order <= (60 if q else 120):
             ops.append(f'C14 isgroup {kind} {n}')
+        if order <= 12:
+            ops.append(f'C14 leftregfull {kind} {n}')
+    # Euler's totient (the stated order of (Z/n)^*)
+    for n in range(0, 401 if q else 2001):
+        ops.append(f'C14 totient {n}')
+    # _dummy_partition on every predicate table for length <= 3 (2 quick) and on random ones above
+    for n in range(0, 3 if q else 4):
+        for bits in itertools.product('01', repeat=n * (n + 1)):
+            ops.append(f'C14 dummypart {n} ' + (''.join(bits) or '-'))
+    for _ in range(150 if q else 2000):
+        n = rng.randint(3, 9)
+        pr = rng.choice([0.2, 0.5, 0.8, 0.95])
+        ops.append(f'C14 dummypart {n} ' + ''.join('1' if rng.random() < pr else '0' for _ in range(n * (n + 1))))
     # arguments rejected by the asserts
     ops += ['C14 table sym 1', 'C14 table sym 0', 'C14 table alt 1', 'C14 table dih 2', 'C14 table dih 0', 'C14 table cyc 1', 'C14 table cyc 0',
             'C14 table mul 2', 'C14 table mul 1', 'C14 numirrep 0', 'C14 young 0', 'C14 hook 1,2', 'C14 hook 2,0', 'C14 hook 0', 'C14 transpose 1,3',
@@ -273,19 +310,101 @@ def sort_rows(line, sep=';'):
     return sep.join(sorted(line.split(sep)))
 
 
+def reduce_trace(L):
+    """run `reduce_group_representation(L)` and record, for every (recursive) call that reaches the selection step, the blocks in
+    discovery order (argument of `sorted`), the Boolean overlap rows handed to `np.nonzero`, and the returned blocks"""
+    import numqi.group._internal as GI
+    frames, stack = [], []
+    orig_red, orig_nz = GI.reduce_group_representation, np.nonzero
+    def my_sorted(iterable, key=None, reverse=False):
+        items = list(iterable)
+        if stack and key is not None and stack[-1]['found'] is None:
+            stack[-1]['found'] = items
+        return sorted(items, key=key, reverse=reverse)
+    def nz(x, *a, **k):
+        if stack and isinstance(x, np.ndarray) and x.dtype == np.bool_ and x.ndim == 1:
+            stack[-1]['rows'].append(x.copy())
+        return orig_nz(x, *a, **k)
+    def red(np0, *a, **k):
+        fr = dict(rows=[], found=None); stack.append(fr)
+        try:
+            out = orig_red(np0, *a, **k)
+        finally:
+            stack.pop()
+        fr['out'] = out
+        if fr['found'] is not None:
+            frames.append(fr)
+        return out
+    GI.reduce_group_representation = red; GI.sorted = my_sorted; np.nonzero = nz
+    try:
+        out = red(L)
+    finally:
+        GI.reduce_group_representation = orig_red; np.nonzero = orig_nz
+        del GI.sorted
+    return out, frames
+
+
+def dedup_tie(ctx):
+    """the selection step of `reduce_group_representation` (group by dimension, drop equivalent copies by character overlap) against
+    `FinGroup.dedupAll`, on the inputs captured from the real call"""
+    import numqi
+    G = numqi.group
+    ops, impl = [], []
+    cases = [('sym', 3), ('dih', 3), ('dih', 4), ('quat', 0), ('cyc', 4), ('klein', 0), ('mul', 15), ('dih', 5), ('cyc', 6)]
+    if not ctx.quick():
+        cases += [('alt', 4), ('dih', 6), ('sym', 4), ('dih', 7), ('mul', 24), ('cyc', 12)]
+    for kind, n in cases:
+        T = np.asarray(build_table(kind, n))
+        L = np.asarray(G.cayley_table_to_left_regular_form(T))
+        out, frames = reduce_trace(L)
+        for fr in frames:
+            found = fr['found']
+            dims = [int(b.shape[1]) for b in found]
+            rows = list(fr['rows'])
+            mats, groups = [], {}
+            for d in sorted(set(dims)):
+                members = [b for b in found if b.shape[1] == d]
+                groups[d] = members
+                if len(members) > 1:
+                    m = len(members)
+                    blk, rows = rows[:m], rows[m:]
+                    if len(blk) != m or any(len(r) != m for r in blk):
+                        raise RuntimeError(f'{kind}{n}: overlap rows of the dimension-{d} group not captured as a {m}x{m} Boolean matrix')
+                    mats.append(f'{d}=' + '/'.join(''.join('1' if x else '0' for x in r) for r in blk))
+            if rows:
+                raise RuntimeError(f'{kind}{n}: {len(rows)} overlap rows left over')
+            sel = []
+            for b in fr['out']:
+                d = int(b.shape[1])
+                idx = [i for i, m in enumerate(groups.get(d, [])) if m is b]
+                sel.append((d, idx[0] if len(idx) == 1 else -1))
+            ops.append(f'C14 dedup {",".join(map(str, dims))} {"+".join(mats) or "-"}')
+            impl.append(';'.join(f'{d}:{i}' for d, i in sorted(sel)))
+            ctx.count('dedup-' + kind)
+    model = common.run_model(ops)
+    model = [';'.join(sorted(m.split(';'), key=lambda t: tuple(int(x) for x in t.split(':')))) if m and ':' in m else m for m in model]
+    common.compare(ctx, ops, impl, model, key=lambda op: 'dedup')
+    ctx.extra['dedup_frames'] = len(ops)
+
+
 def correspondence(ctx):
     ops = gen_ops(ctx)
     impl = [impl_op(op) for op in ops]
     model = common.run_model(ops)
-    # Young-diagram rows and tableau lists are compared as sets with multiplicity (the property does not fix an order)
+    # Young-diagram rows and tableau lists: the enumeration ORDER of the real code is tied too (round 6).  A result with the same rows in
+    # another order does not violate the property; it is reported as a disagreement whose text says so (verdict no-failing-input-found).
     same_order = sum(1 for i, op in enumerate(ops) if op.split(' ')[1] in ('young', 'tableaux') and impl[i] == model[i])
     n_ordered = sum(1 for op in ops if op.split(' ')[1] in ('young', 'tableaux'))
     ctx.extra['young_tableaux_lists_in_identical_order'] = f'{same_order}/{n_ordered}'
     for i, op in enumerate(ops):
-        if op.split(' ')[1] in ('young', 'tableaux'):
-            impl[i] = sort_rows(impl[i]); model[i] = sort_rows(model[i])
+        if op.split(' ')[1] in ('young', 'tableaux') and impl[i] != model[i] and sort_rows(impl[i]) == sort_rows(model[i]):
+            impl[i] = 'same rows as the model, different enumeration order: ' + impl[i][:200]
     nontriv = lambda op, out: not (out.isdigit() and int(out) < 2) and not out.startswith('error')
     common.compare(ctx, ops, impl, model, nontrivial=nontriv)
+    try:
+        dedup_tie(ctx)
+    except Exception as e:
+        ctx.disagree('C14 dedup (capture of reduce_group_representation)', 'the model of the selection step applies', f'capture failed: {type(e).__name__}: {e}'[:300])
     ctx.extra['exhaustive'] = True
     ctx.extra['exhaustive_domain'] = ('all tables of order <= 120 listed in RULE entry for entry; all N<=60 partition counts; every partition of N<=%d for '
                                       'hook/transpose/mask/tableaux' % (8 if ctx.quick() else 10))
@@ -634,6 +753,30 @@ def probe(ctx):
     for kind, n in table_list(ctx):
         if stated_order(kind, n) <= 120:
             probe_table(ctx, kind, n)
+    # hf_Euler_totient against an independent count (product formula over the prime factorisation) and as the order of (Z/n)^*
+    def phi_ref(n):
+        out, m, pp = n, n, 2
+        while pp * pp <= m:
+            if m % pp == 0:
+                while m % pp == 0:
+                    m //= pp
+                out -= out // pp
+            pp += 1
+        if m > 1:
+            out -= out // m
+        return out
+    for n in range(1, 301 if q else 3001):
+        got = guarded(lambda: int(G.hf_Euler_totient(n)))
+        if got != phi_ref(n):
+            ctx.fail('totient', f'hf_Euler_totient({n}) = {got}, phi({n}) = {phi_ref(n)}', dict(n=n, observed=got, expected=phi_ref(n)))
+        else:
+            ctx.probe_ok(('phi', n))
+    for n in (3, 8, 15, 25, 35, 49, 64, 121, 143):
+        got = guarded(lambda: (len(G.get_multiplicative_group_cayley_table(n)), int(G.hf_Euler_totient(n)), int(G.hf_Euler_totient(np.int64(n)))))
+        if isinstance(got, str) or not (got[0] == got[1] == got[2]):
+            ctx.fail('totient:order', f'order of get_multiplicative_group_cayley_table({n}) and hf_Euler_totient({n}) (int, np.int64): {got}', dict(n=n, observed=got))
+        else:
+            ctx.probe_ok(('phi-order', n))
     # partition counts against an independent recurrence (Euler's pentagonal number theorem)
     M = 60 if q else 120
     p = pentagonal_counts(M)
